@@ -124,6 +124,7 @@ func colAlts() []colAlt {
 		{label: "[]string", typ: "[]string"},
 		{label: "[]byte", typ: "[]byte"},
 		{label: "map[string]int", typ: "map[string]int"},
+		{label: "BirthDate", typ: "BirthDate", declB: "type BirthDate time.Time\n" + birthCompanions},
 	}
 }
 
